@@ -1,6 +1,7 @@
 import GapicModel.Driver.Base
 import GapicModel.Model.Emit
 import GapicModel.Model.NamingOptions
+import GapicModel.Pinned.Funcs
 open Lean GapicModel GapicModel.Regex
 namespace GapicModel.Driver
 
@@ -40,13 +41,22 @@ def opC11Filename (j : Json) : Except String Json := do
   pure (Json.mkObj [("r", jstr ("/".toList.intercalate (getFilename ⟨nm, sub, svc, pr⟩ (parseTemplate t))))])
 
 open Model.NamingOptions in
+/-- `Naming.build(*files, opts)`: optional `"namespace"` (the values of the repeatable `python-gapic-namespace` key, in
+order) and `"name"` overrides; `module`/`versionedModule` are `module_name`/`versioned_module_name` (new naming) -/
 def opC11Naming (j : Json) : Except String Json := do
   let pkgs ← strsOf j "pkgs"
+  let nsVals ← (match j.getObjVal? "namespace" with | .ok _ => strsOf j "namespace" | _ => pure [])
+  let nameOv := match j.getObjVal? "name" with | .ok (Json.str s) => s.toList | _ => []
   let root := rootPackage pkgs
   match build pkgs with
   | none => pure (Json.mkObj [("root", jstr root), ("match", Json.bool false)])
-  | some i => pure (Json.mkObj [("root", jstr root), ("match", Json.bool true), ("ns", jarr ((nsSegments i).map jstr)),
-                                ("name", jstr i.name), ("version", jstr i.version), ("versioned", jstr (versionedModule i))])
+  | some i =>
+    let module := Pinned.Funcs.to_valid_module_name (if nameOv = [] then i.name else nameOverrideText nameOv)
+    let versionedM := if i.version = [] then module else module ++ '_' :: i.version
+    pure (Json.mkObj [("root", jstr root), ("match", Json.bool true), ("ns", jarr ((nsSegments i).map jstr)),
+                      ("name", jstr i.name), ("version", jstr i.version), ("versioned", jstr (versionedModule i)),
+                      ("nsWith", jarr ((nsWith i (nsVals.map PyRt.lower)).map jstr)),
+                      ("module", jstr module), ("versionedModule", jstr versionedM)])
 
 open Model.NamingOptions in
 def opC11Opts (j : Json) : Except String Json := do
